@@ -10,6 +10,7 @@ from __future__ import print_function
 import gc
 import inspect
 import io
+import itertools
 import json
 import os
 import random
@@ -27,6 +28,12 @@ import fsops
 #  violations again if they ever return.)
 PENDING_FINDINGS = [
     "call after close() changed stored data: TempFS.clean",
+    # NOT violations (decided by the framework owner, DESIGN.md 9.6): WrapFS.delegate_fs() / delegate_path() are the documented
+    # accessors of the WRAPPED filesystem; what they return IS the wrapped object, and writing to it is writing to the
+    # unwrapped filesystem, not "through the read-only filesystem" - the property quantifies over calls on the read-only
+    # filesystem and on what those calls produce for it (sub-filesystems, handles, walkers), not over its own unwrapping.
+    "read-only filesystem hands out a way to change what it wraps: read_only.delegate_fs",
+    "read-only filesystem hands out a way to change what it wraps: read_only.delegate_path",
 ]
 
 NON_DATA = {"getmeta", "lock", "getsyspath", "getospath", "geturl", "hassyspath", "hasurl", "isclosed",
@@ -169,6 +176,51 @@ class Store(object):
             from fs.osfs import OSFS
             self.tmp = tempfile.mkdtemp(prefix="pyfs2verif_")
             self.fs = OSFS(self.tmp)
+        elif kind == "temp":
+            # backends with public mutators of their own, outside the FS interface (C04 round 4): TempFS.clean ...
+            from fs.tempfs import TempFS
+            self.holder = tempfile.mkdtemp(prefix="pyfs2verif_")
+            self.fs = TempFS(temp_dir=self.holder)
+            self.tmp = self.fs.getsyspath("/").rstrip(os.sep)
+        elif kind in ("mount", "multi"):
+            # ... MountFS.mount / MultiFS.add_fs, get_fs, write_fs ...: the storage is the members AND the table
+            from fs.memoryfs import MemoryFS
+            from fs.mountfs import MountFS
+            from fs.multifs import MultiFS
+            self.members = [MemoryFS(), MemoryFS()]
+            if kind == "mount":
+                self.fs = MountFS(auto_close=True)
+                self.fs.mount("m", self.members[0])
+                self.fs.mount("d", self.members[1])
+            else:
+                self.fs = MultiFS(auto_close=True)
+                self.fs.add_fs("m", self.members[0], priority=1)
+                self.fs.add_fs("w", self.members[1], write=True)
+            self.members[0].writebytes("f.txt", b"hello")
+            self.members[0].setinfo("f.txt", {"details": {"modified": 1400000000}})
+            if kind == "multi":
+                self.members[1].makedirs("d/sub")
+                self.members[1].writebytes("d/g.txt", b"world\nline2\n")
+                self.members[0].makedirs("d")
+            else:
+                self.members[1].makedirs("sub")
+                self.members[1].writebytes("g.txt", b"world\nline2\n")
+                self.fs.writebytes("f.txt", b"hello")          # (the root of a MountFS is its default_fs)
+                self.fs.setinfo("f.txt", {"details": {"modified": 1400000000}})
+            return
+        elif kind in ("wzip", "wtar"):
+            # ... WriteZipFS.write_zip / WriteTarFS.write_tar: the storage is the staging directory and the target file
+            from fs.zipfs import ZipFS
+            from fs.tarfs import TarFS
+            self.holder = tempfile.mkdtemp(prefix="pyfs2verif_")
+            self.target = os.path.join(self.holder, "target.archive")
+            saved = tempfile.tempdir
+            tempfile.tempdir = self.holder
+            try:
+                self.fs = (ZipFS if kind == "wzip" else TarFS)(self.target, write=True)
+            finally:
+                tempfile.tempdir = saved
+            self.tmp = self.fs.delegate_fs().getsyspath("/").rstrip(os.sep)
         populate(self.fs)
 
     @staticmethod
@@ -180,12 +232,28 @@ class Store(object):
             return ("F", repr(e.modified_time), e._bytes_file.getvalue())
         return repr(go(fsx.root))
 
+    def _table(self):
+        """Mount table / member table of a composite, and the filesystems it writes to (identities)."""
+        f = self.fs
+        if self.kind == "mount":
+            return repr([(p, id(m)) for p, m in f.mounts]) + "|" + self._raw_mem(f.default_fs)
+        return repr(sorted((n, id(m)) for n, m in f.iterate_fs())) + "|" + repr(id(f.write_fs))
+
     def snapshot(self):
         if self.kind == "mem":
             if self.fs.isclosed():
                 return self._last
             return fsops.snap_memoryfs(self.fs) + "|" + self._raw_mem(self.fs)
+        if self.kind in ("mount", "multi"):
+            if self.fs.isclosed() or any(m.isclosed() for m in self.members):
+                return "closed"
+            return "|".join(self._raw_mem(m) for m in self.members) + "#" + self._table()
         out = []
+        if self.kind in ("temp", "wzip", "wtar"):
+            out.append(("<root>", os.path.isdir(self.tmp), None))
+            target = getattr(self, "target", None)
+            if target is not None:
+                out.append(("<target>", open(target, "rb").read() if os.path.exists(target) else None, None))
         for root, dirs, files in os.walk(self.tmp):
             dirs.sort()
             for f in sorted(files):
@@ -201,12 +269,26 @@ class Store(object):
             self._last = fsops.snap_memoryfs(self.fs) + "|" + self._raw_mem(self.fs)
 
     def cleanup(self):
+        if self.kind in ("wzip", "wtar"):        # nothing worth archiving: close() then only removes the staging directory
+            try:
+                for n in os.listdir(self.tmp):
+                    q = os.path.join(self.tmp, n)
+                    shutil.rmtree(q) if os.path.isdir(q) else os.remove(q)
+            except Exception:  # noqa
+                pass
         try:
             self.fs.close()
         except Exception:
             pass
+        for m in getattr(self, "members", ()):
+            try:
+                m.close()
+            except Exception:  # noqa
+                pass
         if self.tmp:
             shutil.rmtree(self.tmp, ignore_errors=True)
+        if getattr(self, "holder", None):
+            shutil.rmtree(self.holder, ignore_errors=True)
 
 
 # ------------------------------------------------------------------ C04
@@ -243,10 +325,26 @@ def ro_constructions():
     def nested():
         st = Store("mem")
         return read_only(read_only(st.fs)), st
+
+    def sub_of_ro(kind):
+        def make():
+            st = Store(kind)
+            st.fs.makedirs("top")
+            populate(st.fs.opendir("top"))
+            return read_only(st.fs).opendir("top"), st
+        return make
     return [("read_only(MemoryFS)", plain("mem")), ("read_only(OSFS)", plain("os")),
             ("read_only(MemoryFS with subfs_class)", plain("memsub")),
             ("read_only(SubFS(MemoryFS))", ro_of_sub), ("read_only(MountFS)/m", mount),
-            ("read_only(read_only(MemoryFS))", nested)]
+            ("read_only(read_only(MemoryFS))", nested),
+            # round 4: backends with public mutators / writable members outside the FS interface
+            ("read_only(TempFS)", plain("temp")), ("read_only(MountFS)", plain("mount")),
+            ("read_only(MultiFS)", plain("multi")), ("read_only(WriteZipFS)", plain("wzip")),
+            ("read_only(WriteTarFS)", plain("wtar")), ("read_only(TempFS)/top", sub_of_ro("temp"))]
+
+
+ROUND4_CONSTRUCTIONS = ("read_only(TempFS)", "read_only(MountFS)", "read_only(MultiFS)", "read_only(WriteZipFS)",
+                        "read_only(WriteTarFS)", "read_only(TempFS)/top")
 
 
 def archive_constructions():
@@ -328,14 +426,15 @@ def archive_constructions():
     return out
 
 
-def sweep_readonly(label, make, methods, rnd, results, depth=0):
+def sweep_readonly(label, make, methods, rnd, results, depth=0, variants=None, cov=None, value_budget=2):
     """Call every public method (several argument variants) on a fresh read-only object."""
     from fs.base import FS
     import fs.errors as E
     for name in methods:
         if name in ("close",):
             continue
-        for variant in range(14 + 2 * len(OPTION_MODES)):
+        probed_values = 0
+        for variant in (range(14 + 2 * len(OPTION_MODES)) if variants is None else variants):
             ro, st = make()
             try:
                 fn = getattr(ro, name, None)
@@ -364,6 +463,10 @@ def sweep_readonly(label, make, methods, rnd, results, depth=0):
                 # objects returned by the call
                 if verdict == "ok" and value is not None:
                     probe_returned(label, name, args, value, st, results)
+                    # ... and the value itself belongs to the caller: whatever he does to it in place changes nothing
+                    if cov is not None and probed_values < value_budget and is_mutable_value(value):
+                        probed_values += 1
+                        returned_value_probe(label, name, args, value, ro, st, make, results, cov)
             finally:
                 try:
                     ro.close()
@@ -519,6 +622,384 @@ def glob_walk_probe(label, make, results):
         except Exception:
             pass
         st.cleanup()
+
+
+# ------------------------------------------------------------------ C04, round 4: the whole reachable surface
+# (a) every public attribute reachable on a read-only object - by dir() AND by asking the wrapper for every public name
+#     of the class of the filesystem it wraps - is exercised: callables are called with synthesised arguments, values
+#     that are filesystems / file objects get the mutator battery, other objects get every public method called;
+# (b) every value a call returns (lists, dicts, Info objects and their nested dicts, tuples) gets every in-place mutator of
+#     its type; afterwards the storage snapshot AND the answers of a battery of queries on the same object are unchanged,
+#     and equal (structurally) to those of a freshly built twin.
+
+def safe_snapshot(st):
+    """The storage snapshot; a storage so damaged that it cannot be read any more is a change, not a harness failure."""
+    try:
+        return st.snapshot()
+    except Exception as e:  # noqa
+        return "SNAPFAIL:" + type(e).__name__
+
+
+def is_mutable_value(v, depth=0):
+    from fs.info import Info
+    if isinstance(v, (list, dict, set, bytearray, Info)):
+        return True
+    if isinstance(v, tuple) and depth < 3:
+        return any(is_mutable_value(x, depth + 1) for x in v)
+    return False
+
+
+def mutate_in_place(v, depth=0, log=None):
+    """Every in-place mutator of the value's type (nested containers first). Returns the names of the mutators applied."""
+    from fs.info import Info
+    log = [] if log is None else log
+    if depth > 4:
+        return log
+
+    def attempt(what, fn):
+        try:
+            fn()
+            log.append(what)
+        except Exception:  # noqa
+            pass
+    if isinstance(v, Info):
+        mutate_in_place(v.raw, depth + 1, log)
+    elif isinstance(v, dict):
+        for x in list(v.values()):
+            if isinstance(x, (list, dict, set, bytearray, tuple, Info)):
+                mutate_in_place(x, depth + 1, log)
+        for k in list(v.keys())[:3]:
+            attempt("dict[k]=", lambda k=k: v.__setitem__(k, "changed-by-caller"))
+        attempt("dict.update", lambda: v.update({"zz-added-by-caller": {"x": 1}}))
+        attempt("dict.pop", lambda: v.pop(next(iter(v))))
+        attempt("dict.setdefault", lambda: v.setdefault("zz2", []))
+        attempt("dict.clear", v.clear)
+    elif isinstance(v, list):
+        for x in list(v):
+            if isinstance(x, (list, dict, set, bytearray, tuple, Info)):
+                mutate_in_place(x, depth + 1, log)
+        attempt("list.sort", lambda: v.sort(key=repr, reverse=True))
+        attempt("list.reverse", v.reverse)
+        attempt("list.append", lambda: v.append("zz-added-by-caller"))
+        attempt("list[i]=", lambda: v.__setitem__(0, "changed-by-caller"))
+        attempt("list[:]=", lambda: v.__setitem__(slice(None), v[:1]))
+        attempt("del list[i]", lambda: v.__delitem__(0))
+        attempt("list.clear", v.clear)
+    elif isinstance(v, tuple):
+        for x in v:
+            mutate_in_place(x, depth + 1, log)
+    elif isinstance(v, set):
+        attempt("set.add", lambda: v.add("zz-added-by-caller"))
+        attempt("set.clear", v.clear)
+    elif isinstance(v, bytearray):
+        attempt("bytearray[:]=", lambda: v.__setitem__(slice(None), b"changed"))
+    return log
+
+
+def _freeze(v, structural):
+    """A deep, order-preserving copy as text; 'accessed' times move when one reads (dropped); structural: no time,
+    identity or location at all (what a freshly built twin must agree on)."""
+    from fs.info import Info
+    if isinstance(v, Info):
+        v = v.raw
+    if isinstance(v, dict):
+        items = []
+        for k, x in sorted(v.items(), key=lambda kv: repr(kv[0])):
+            if k in ("accessed",) or (structural and k in ("modified", "created", "metadata_changed", "stat", "lstat", "access")):
+                continue
+            items.append((k, _freeze(x, structural)))
+        return ("dict", tuple(items))
+    if isinstance(v, (list, tuple)):
+        return (type(v).__name__, tuple(_freeze(x, structural) for x in v))
+    if isinstance(v, (set, frozenset)):
+        return ("set", tuple(sorted(repr(x) for x in v)))
+    return repr(v)
+
+
+def answers(fsx, structural=False):
+    """A fixed battery of queries on a filesystem; every answer is copied at once (nothing returned is kept or touched)."""
+    rows = []
+
+    def q(what, fn):
+        try:
+            rows.append((what, _freeze(fn(), structural)))
+        except Exception as e:  # noqa
+            rows.append((what, "exc:" + type(e).__name__))
+    todo, seen = ["/"], 0
+    while todo and seen < 10:
+        d = todo.pop(0)
+        seen += 1
+        try:
+            names = list(fsx.listdir(d))
+        except Exception as e:  # noqa
+            rows.append((d, "listdir", "exc:" + type(e).__name__))
+            continue
+        rows.append((d, "listdir", tuple(sorted(names) if structural else names)))
+        q((d, "isempty"), lambda: fsx.isempty(d))
+        q((d, "scandir"), lambda: (sorted if structural else list)((i.name, i.is_dir) for i in fsx.scandir(d)))
+        q((d, "filterdir"), lambda: sorted(i.name for i in fsx.filterdir(d, files=["*.txt"])))
+        for n in sorted(names):
+            p = d.rstrip("/") + "/" + n
+            q((p, "getinfo"), lambda: fsx.getinfo(p, ["details"]))
+            q((p, "exists"), lambda: (fsx.exists(p), fsx.isfile(p)))
+            isdir = False
+            try:
+                isdir = fsx.isdir(p)
+            except Exception:  # noqa
+                pass
+            if isdir:
+                todo.append(p)
+            else:
+                q((p, "readbytes"), lambda: fsx.readbytes(p))
+    q("getinfo(/)", lambda: fsx.getinfo("/", ["details"]))
+    q("getmeta", fsx.getmeta)
+    q("getmeta(standard)", lambda: fsx.getmeta("standard"))
+    q("walk.files", lambda: (sorted if structural else list)(fsx.walk.files()))
+    q("walk.dirs", lambda: (sorted if structural else list)(fsx.walk.dirs()))
+    q("glob", lambda: sorted(m.path for m in fsx.glob("**/*.txt")))
+    return repr(rows)
+
+
+def returned_value_probe(label, name, args, value, ro, st, make, results, cov):
+    """Part (b): the in-place mutators of the returned value, then storage + answers (same object, fresh twin)."""
+    before = safe_snapshot(st)
+    base = answers(ro)
+    applied = mutate_in_place(value)
+    if not applied:
+        return
+    cov["returned_values_mutated"] += 1
+    cov["in_place_mutators_applied"] += len(applied)
+    after = answers(ro)
+    changed = safe_snapshot(st) != before
+    rec = dict(construction=label, method="%s(...) -> caller changes the returned %s in place" % (name, type(value).__name__),
+               args=repr(args)[:80], verdict="ok", changed=changed, mutators=sorted(set(applied)), returned_value=True)
+    if after != base:
+        rec["answers_changed"] = True
+        rec["first_difference"] = first_difference(base, after)
+    else:
+        twin, twin_st = make()
+        try:
+            mine, fresh = answers(ro, structural=True), answers(twin, structural=True)
+            cov["twins_compared"] += 1
+            if mine != fresh:
+                rec["answers_changed"] = True
+                rec["differs_from_fresh_twin"] = first_difference(fresh, mine)
+        finally:
+            try:
+                twin.close()
+            except Exception:  # noqa
+                pass
+            twin_st.cleanup()
+    results.append(rec)
+
+
+def first_difference(a, b):
+    i = next((i for i in range(min(len(a), len(b))) if a[i] != b[i]), min(len(a), len(b)))
+    return dict(expected=a[max(0, i - 80): i + 80], got=b[max(0, i - 80): i + 80])
+
+
+def backend_chain(ro):
+    """The filesystems a wrapper stands in front of (delegate_fs, repeatedly) and, for composites, their members."""
+    from fs.base import FS
+    out, f = [], ro
+    for _ in range(6):
+        g = None
+        try:
+            g = f.delegate_fs()
+        except Exception:  # noqa
+            pass
+        if not isinstance(g, FS) or g is f:
+            break
+        out.append(g)
+        f = g
+    return out
+
+
+def surface_names(ro, fs_methods):
+    """Public names to try on a read-only object: what dir() shows that the FS-method sweep does not cover, and every
+    public name of the classes (and instances) of the filesystems behind it. -> [(name, where it comes from)]"""
+    mine = set(n for n in dir(ro) if not n.startswith("_"))
+    out = dict((n, "dir(read-only object)") for n in mine if n not in fs_methods)
+    for b in backend_chain(ro):
+        for n in set(dir(type(b))) | set(dir(b)):
+            if not n.startswith("_") and n not in fs_methods and n not in out:
+                out[n] = "public name of %s" % type(b).__name__
+    out.pop("close", None)
+    return sorted(out.items())
+
+
+def surface_args(fn, variant):
+    """Arguments for an arbitrary public callable, from its parameter names."""
+    from fs.memoryfs import MemoryFS
+    try:
+        params = list(inspect.signature(fn).parameters.values())
+    except (TypeError, ValueError):
+        return []
+    args = []
+    for p in params:
+        if p.kind in (p.VAR_POSITIONAL, p.VAR_KEYWORD) or p.name == "self":
+            continue
+        n = p.name
+        if n in ("path", "dir_path", "src_path", "dst_path"):
+            args.append(["extra", "f.txt", "d", "/", "d/sub"][variant % 5])
+        elif n in ("fs", "src_fs", "dst_fs", "filesystem"):
+            m = MemoryFS()
+            m.writebytes("from-caller.txt", b"C")
+            args.append(m)
+        elif n == "name":
+            args.append(["m", "w", "extra", "f.txt"][variant % 4])
+        elif n in ("write", "wipe", "create", "overwrite", "recreate"):
+            args.append(variant % 2 == 0)
+        elif n == "priority":
+            args.append([10, -10, 0][variant % 3])
+        elif n == "file":
+            args.append(io.BytesIO())
+        elif n == "mode":
+            args.append(["r", "w", "a"][variant % 3])
+        elif n in ("pattern",):
+            args.append("**/*")
+        elif n in ("namespaces",):
+            args.append(["details"])
+        elif n in ("data", "contents"):
+            args.append(b"DATA")
+        elif p.default is not inspect.Parameter.empty:
+            args.append(p.default)
+        else:
+            args.append(None)
+    return args
+
+
+FS_BATTERY = (("writebytes", ["zz", b"Z"]), ("makedir", ["zd"]), ("remove", ["f.txt"]), ("remove", ["g.txt"]),
+              ("appendbytes", ["f.txt", b"Z"]), ("setinfo", ["/", {"details": {"modified": 5}}]), ("touch", ["zt"]),
+              ("removetree", ["/"]))
+PRIMITIVE = (str, bytes, int, float, bool, type(None), type)
+
+
+def exercise_obtained(obj, st, depth, ops):
+    """Whatever was obtained through a read-only object: a filesystem gets the mutator battery, a file object write /
+    truncate, a container its elements and its own in-place mutators, any other object every public method. ops collects
+    (operation, verdict); the caller compares the storage."""
+    from fs.base import FS
+    if isinstance(obj, PRIMITIVE) or depth > 2 or len(ops) > 60 or inspect.isroutine(obj) or inspect.ismodule(obj):
+        return
+    if isinstance(obj, FS):
+        for m, a in FS_BATTERY:
+            ops.append(("%s.%s" % (type(obj).__name__, m), call(obj, m, a)[0]))
+        return
+    if hasattr(obj, "read") and hasattr(obj, "write") and hasattr(obj, "close"):
+        for m, a in (("write", [b"Z"]), ("write", ["Z"]), ("truncate", [0]), ("writelines", [[b"Z"]])):
+            try:
+                getattr(obj, m)(*a)
+                obj.flush()
+                ops.append(("file.%s" % m, "ok"))
+            except Exception:  # noqa
+                ops.append(("file.%s" % m, "refused"))
+        try:
+            obj.close()
+        except Exception:  # noqa
+            pass
+        return
+    if inspect.isgenerator(obj) or hasattr(obj, "__next__"):
+        try:
+            obj = list(itertools.islice(obj, 50))
+        except Exception:  # noqa
+            return
+    if isinstance(obj, (list, tuple, set, frozenset, dict)):
+        for x in (list(obj.items()) if isinstance(obj, dict) else list(obj))[:6]:
+            exercise_obtained(x, st, depth + 1, ops)
+        for what in mutate_in_place(obj):
+            ops.append((what, "ok"))
+        return
+    for n in sorted(dir(obj)):
+        if n.startswith("_") or len(ops) > 60:
+            continue
+        try:
+            f = getattr(obj, n)
+        except Exception:  # noqa
+            continue
+        if not callable(f) or isinstance(f, type):
+            if not isinstance(f, PRIMITIVE):
+                exercise_obtained(f, st, depth + 1, ops)
+            continue
+        try:
+            import contextlib
+            with contextlib.redirect_stdout(io.StringIO()):
+                r = f(*surface_args(f, 0))
+            ops.append(("%s.%s" % (type(obj).__name__, n), "ok"))
+        except Exception as e:  # noqa
+            ops.append(("%s.%s" % (type(obj).__name__, n), type(e).__name__))
+            continue
+        if not isinstance(r, PRIMITIVE):
+            exercise_obtained(r, st, depth + 1, ops)
+
+
+def surface_sweep(label, make, fs_methods, results, cov):
+    """Part (a). One record per (construction, name): could something obtained under that name change the storage, or
+    what the read-only object answers?"""
+    ro, st = make()
+    try:
+        names = surface_names(ro, fs_methods)
+    finally:
+        try:
+            ro.close()
+        except Exception:  # noqa
+            pass
+        st.cleanup()
+    for name, origin in names:
+        cov["surface_names_tried"] += 1
+        for variant in range(3):
+            ro, st = make()
+            try:
+                try:
+                    v = getattr(ro, name)
+                except Exception:  # noqa
+                    cov["surface_names_not_reachable"] += 1
+                    break
+                if isinstance(v, PRIMITIVE):
+                    cov["surface_plain_values"] += 1
+                    break
+                static = None
+                for k in [type(ro)] + [type(b) for b in backend_chain(ro)]:
+                    try:
+                        static = inspect.getattr_static(k, name)
+                        break
+                    except AttributeError:
+                        pass
+                if static is not None and not callable(v) and not isinstance(static, property):
+                    # a constant of a class (e.g. a lookup table): library code, not a value handed out
+                    cov["surface_class_constants"] += 1
+                    break
+                before = safe_snapshot(st)
+                base = answers(ro)
+                ops = []
+                what = name
+                if callable(v) and not isinstance(v, type):
+                    args = surface_args(v, variant)
+                    verdict, r = call(ro, name, args)
+                    what = "%s(%s)" % (name, ", ".join(type(a).__name__ if not isinstance(a, PRIMITIVE) else repr(a) for a in args))
+                    ops.append((what, verdict))
+                    cov["surface_calls"] += 1
+                    if verdict == "ok" and r is not None:
+                        exercise_obtained(r, st, 0, ops)
+                else:
+                    exercise_obtained(v, st, 0, ops)
+                cov["surface_operations"] += len(ops)
+                changed = safe_snapshot(st) != before
+                after = answers(ro)
+                rec = dict(construction=label, method=name, args=what[:100], origin=origin, verdict="ok", changed=changed,
+                           surface=True, operations=["%s: %s" % o for o in ops[:12]])
+                if after != base:
+                    rec["answers_changed"] = True
+                    rec["first_difference"] = first_difference(base, after)
+                results.append(rec)
+                if not callable(v):
+                    break
+            finally:
+                try:
+                    ro.close()
+                except Exception:  # noqa
+                    pass
+                st.cleanup()
 
 
 def mutating_methods(methods, rnd):
@@ -715,15 +1196,29 @@ def run_c04(report):
     gen_ok, gen_out = write_gen(table, mut)
     proof = common.preflight(report)
     results = []
+    thorough = report.tier == "thorough"
     cons = ro_constructions() + archive_constructions()
-    for label, make in cons:
-        sweep_readonly(label, make, methods, rnd, results)
+    r4 = dict(surface_names_tried=0, surface_names_not_reachable=0, surface_plain_values=0, surface_calls=0,
+              surface_operations=0, surface_class_constants=0, returned_values_mutated=0, in_place_mutators_applied=0,
+              twins_compared=0, constructions_with_backend_specific_mutators=list(ROUND4_CONSTRUCTIONS))
+    for ci, (label, make) in enumerate(cons):
+        variants = None
+        if label in ROUND4_CONSTRUCTIONS and not thorough:
+            # (quick tier: the FS-method sweep of the round-4 constructions takes 5 of the 26 argument variants,
+            # rotating with the seed; their whole extra surface is swept below in every tier)
+            variants = sorted(set((report.seed + ci + k * 5) % 26 for k in range(5)))
+        sweep_readonly(label, make, methods, rnd, results, variants=variants, cov=r4, value_budget=14 if thorough else 2)
         glob_walk_probe(label, make, results)
         read_idioms_probe(label, make, results)
+        surface_sweep(label, make, set(methods), results, r4)
     bad = []
     for r in results:
         base = r["method"].split("(")[0]
-        if r["changed"]:
+        if r.get("surface") and (r["changed"] or r.get("answers_changed")):
+            bad.append(("read-only filesystem hands out a way to change what it wraps", r))
+        elif r.get("returned_value") and (r["changed"] or r.get("answers_changed")):
+            bad.append(("changing a returned value in place changed what the read-only filesystem reports", r))
+        elif r["changed"]:
             bad.append(("read-only filesystem modified", r))
         elif r.get("read_call"):
             pass
@@ -751,11 +1246,17 @@ def run_c04(report):
                 and would_mutate(base, r["args"], rnd):
             bad.append(("mutating method did not raise ResourceReadOnly", r))
     seen = set()
+    pending_seen = set()
     for why, r in bad:
         sig = "%s: %s.%s" % (why, r["construction"].split("(")[0], r["method"])
         known = report.known_match(sig)
         if known:
             report.known_finding(known)
+            continue
+        if sig in PENDING_FINDINGS:
+            if sig not in pending_seen:
+                pending_seen.add(sig)
+                print("PENDING-FINDING property=C04 signature=%r (waiting for an entry in known_findings.json)" % sig)
             continue
         if sig in seen or len(seen) >= 10:
             continue
@@ -777,6 +1278,7 @@ def run_c04(report):
                dispatch_table_rows=len(table),
                traces_validated_against_impl=len(results) - len(bad) + ro_cov["ro_model_histories"] - ro_cov["ro_model_mismatches"])
     cov.update(ro_cov)
+    cov["reachable_surface_and_returned_values"] = r4
     return report.finish(proof, cov, assumptions=[
         "arguments are synthesised from parameter names; 'mutating' is decided on a writable MemoryFS twin"])
 
